@@ -1,15 +1,19 @@
 package sshwire
 
 import (
+	"bytes"
 	"crypto"
 	"crypto/sha256"
 	"encoding/binary"
 	"fmt"
 	"io"
 	"math/big"
+	"strings"
+	"sync"
 
 	"golang.org/x/crypto/ssh"
 
+	"verif/harness/internal/ev"
 	rw "verif/harness/internal/refsshwire"
 )
 
@@ -69,7 +73,10 @@ func (m wmode) String() string {
 // once) and cross-checks the parameters with the reference tables.  problems
 // are harness trouble (a mode the reference does not know); mismatches are
 // deviations from the specifications' key / IV / MAC sizes.
+var refusedModes []string
+
 func wireModes() (modes []wmode, problems, mismatches []string) {
+	refusedModes = nil
 	for _, ci := range ssh.VerifWireCipherModes() {
 		cs, ok := rw.CipherByName(ci.Name)
 		if !ok {
@@ -92,7 +99,16 @@ func wireModes() (modes []wmode, problems, mismatches []string) {
 			if ms.KeyLen != mi.KeySize || ms.Size != mi.Size || ms.ETM != mi.ETM {
 				mismatches = append(mismatches, fmt.Sprintf("MAC %s: package key/size/etm %d/%d/%v, specification %d/%d/%v", mi.Name, mi.KeySize, mi.Size, mi.ETM, ms.KeyLen, ms.Size, ms.ETM))
 			}
-			modes = append(modes, wmode{Cipher: ci.Name, MAC: mi.Name, CI: ci, MI: mi})
+			m := wmode{Cipher: ci.Name, MAC: mi.Name, CI: ci, MI: mi}
+			if isF9Class(m) {
+				// a package that refuses to build CBC with an EtM MAC does not
+				// "support" the combination: nothing is written, nothing to check
+				if _, err := goCipher(m, makeSecrets(crypto.SHA256, newDRBG(3), 32), false); err != nil {
+					refusedModes = append(refusedModes, m.String())
+					continue
+				}
+			}
+			modes = append(modes, m)
 		}
 	}
 	return
@@ -139,12 +155,83 @@ func goCipher(m wmode, s kexSecrets, serverToClient bool) (*ssh.VerifWirePacketC
 }
 
 // refState builds the reference state, deriving the keys independently.
+// For a mode in which finding F9 was observed in this run (see f9Observed) the
+// reference follows what the package really does (encrypt-and-MAC with the
+// EtM algorithm's HMAC) so that everything else stays checked behind it.
 func refState(m wmode, s kexSecrets, serverToClient bool) (*rw.State, rw.Keys, error) {
+	if f9Observed(m) {
+		return refStateAs(m, strings.TrimSuffix(m.MAC, "-etm@openssh.com"), s, serverToClient)
+	}
+	return refStateAs(m, m.MAC, s, serverToClient)
+}
+
+func refStateAs(m wmode, macName string, s kexSecrets, serverToClient bool) (*rw.State, rw.Keys, error) {
 	cs, _ := rw.CipherByName(m.Cipher)
-	ms, _ := rw.MACByName(m.MAC)
+	ms, _ := rw.MACByName(macName)
 	keys := rw.DeriveKeys(cs, ms.KeyLen, s.Hash, s.KEnc, s.H, s.SessionID, serverToClient)
-	st, err := rw.NewState(m.Cipher, m.MAC, keys)
+	st, err := rw.NewState(m.Cipher, macName, keys)
 	return st, keys, err
+}
+
+// Finding F9: the CBC packet cipher ignores the EtM flag of the negotiated
+// MAC.  isF9Class is the exact class (CBC cipher x EtM MAC); f9Observed
+// re-derives, once per mode and run, whether the defect is present: a packet
+// of the package's writer fails the PROTOCOL 1.5 (EtM) decoder but decodes as
+// an RFC 4253 encrypt-and-MAC packet under the same keys.
+func isF9Class(m wmode) bool {
+	cs, _ := rw.CipherByName(m.Cipher)
+	return (cs.Kind == "cbc-aes" || cs.Kind == "cbc-3des") && !m.AEAD && m.MI.ETM
+}
+
+var (
+	f9Mu    sync.Mutex
+	f9Cache = map[string]bool{}
+	f9What  = map[string]string{}
+)
+
+func f9Observed(m wmode) bool {
+	if !isF9Class(m) {
+		return false
+	}
+	f9Mu.Lock()
+	defer f9Mu.Unlock()
+	if v, ok := f9Cache[m.String()]; ok {
+		return v
+	}
+	sec := makeSecrets(crypto.SHA256, newDRBG(9), 32)
+	observed := false
+	g, err := goCipher(m, sec, false)
+	if err == nil {
+		var buf bytes.Buffer
+		payload := []byte{94, 1, 2, 3, 4, 5, 6, 7, 8, 9}
+		if guard(func() error { return g.WritePacket(7, &buf, newDRBG(1), append([]byte{}, payload...)) }) == nil {
+			strict, _, _ := refStateAs(m, m.MAC, sec, false)
+			_, errStrict := strict.Decode(7, buf.Bytes())
+			asEM, _, _ := refStateAs(m, strings.TrimSuffix(m.MAC, "-etm@openssh.com"), sec, false)
+			p, errEM := asEM.Decode(7, buf.Bytes())
+			if errStrict != nil && errEM == nil && bytes.Equal(p.Payload, payload) {
+				observed = true
+				f9What[m.String()] = fmt.Sprintf("%v: the packet for a 10-byte payload at seq 7 (%s) is not an EtM packet (OpenSSH PROTOCOL 1.5: length in clear, MAC over seq||length||ciphertext): %v; it decodes as an RFC 4253 encrypt-and-MAC packet (length encrypted, MAC over the plaintext)", m, ev.Hex(buf.Bytes()), errStrict)
+			}
+		}
+	}
+	f9Cache[m.String()] = observed
+	return observed
+}
+
+// f9Report handles the finding for one mode of the class: KNOWN-FINDING while
+// listed, a violation otherwise.  It returns a non-empty violation text.
+func f9Report(c *ev.Collector, m wmode) string {
+	if !f9Observed(m) {
+		return ""
+	}
+	if _, listed := ev.IsKnownFinding("F9"); listed {
+		c.Known("F9 CBC ciphers (aes128-cbc, 3des-cbc) ignore the EtM flag of hmac-sha2-*-etm@openssh.com: packets are encrypt-and-MAC (length encrypted, MAC over plaintext) and do not decode under OpenSSH PROTOCOL 1.5; re-derived by the independent decoder")
+		return ""
+	}
+	f9Mu.Lock()
+	defer f9Mu.Unlock()
+	return f9What[m.String()]
 }
 
 // countingReader serves a finite byte string and records how far beyond the
